@@ -18,7 +18,8 @@ EXTENDS Integers, Sequences, FiniteSets, TLC, Json
 CONSTANTS Pairs
 
 \* position -> status -> class
-HexV  == [ok |-> "ok", upper |-> "bad", short |-> "bad", long |-> "bad", nonhex |-> "bad", empty |-> "bad", number |-> "bad"]
+\* udigit: one character replaced by a two-byte non-ASCII decimal digit and one dropped (the byte length is still right)
+HexV  == [ok |-> "ok", upper |-> "bad", short |-> "bad", long |-> "bad", nonhex |-> "bad", udigit |-> "bad", empty |-> "bad", number |-> "bad"]
 KindV == [k0 |-> "ok", k1 |-> "ok", k65535 |-> "ok", neg |-> "bad", k65536 |-> "bad", big |-> "bad",
           float |-> "bad", string |-> "bad", exp |-> "open", wrap32 |-> "bad"]
 TsV   == [t0 |-> "ok", now |-> "ok", big |-> "ok", neg |-> "open", float |-> "bad", string |-> "bad"]
@@ -33,14 +34,14 @@ EventV == [id |-> HexV, pubkey |-> HexV, sig |-> HexV, kind |-> KindV, created_a
 EventBase == [id |-> "ok", pubkey |-> "ok", sig |-> "ok", kind |-> "k1", created_at |-> "now",
               tags |-> "one", content |-> "ascii", members |-> "exact", obj |-> "object"]
 
-ListV  == [absent |-> "ok", one |-> "ok", two |-> "ok", empty |-> "ok", upper |-> "bad", short |-> "bad",
+ListV  == [absent |-> "ok", one |-> "ok", two |-> "ok", empty |-> "ok", upper |-> "bad", short |-> "bad", udigit |-> "bad",
            number |-> "bad", notarray |-> "bad", null |-> "open"]
 KindsV == [absent |-> "ok", one |-> "ok", multi |-> "ok", empty |-> "ok", neg |-> "bad", k65536 |-> "bad", wrap32 |-> "bad",
            float |-> "bad", string |-> "bad", notarray |-> "bad"]
 TagEV  == [absent |-> "ok", ok |-> "ok", empty |-> "ok", badid |-> "open", number |-> "bad", notarray |-> "bad"]
 TagTV  == [absent |-> "ok", ok |-> "ok", emptystr |-> "ok", empty |-> "ok", upperkey |-> "ok", number |-> "bad", notarray |-> "bad"]
 TagAV  == [absent |-> "ok", ok |-> "ok", dcolon |-> "ok", emptyd |-> "ok", kind0emptyd |-> "ok", kindwrap |-> "bad", twoparts |-> "open",
-           badkind |-> "bad", kindrange |-> "bad", badpk |-> "bad", upperpk |-> "bad"]
+           badkind |-> "bad", kindrange |-> "bad", badpk |-> "bad", upperpk |-> "bad", udigitpk |-> "bad"]
 KeyV   == [none |-> "ok", unknown |-> "bad", multiletter |-> "bad", hashonly |-> "bad", emptykey |-> "bad", digit |-> "open"]
 NumV   == [absent |-> "ok", zero |-> "ok", ok |-> "ok", neg |-> "bad", float |-> "bad", string |-> "bad"]
 RelV   == [na |-> "ok", inverted |-> "open"]       \* since > until (both present and ok)
@@ -58,7 +59,8 @@ LabelV == [ok |-> "ok", lower |-> "bad", unknown |-> "bad", number |-> "bad"]
 SubV   == [ok |-> "ok", empty |-> "open", long |-> "open", number |-> "bad"]
 ArityV == [ok |-> "ok", short |-> "bad", long |-> "bad"]
 TopV   == [array |-> "ok", object |-> "bad", string |-> "bad", emptyarray |-> "bad"]
-WsV    == [none |-> "ok", leading |-> "ok", trailing |-> "ok", inner |-> "ok", newline |-> "ok", tabcr |-> "ok"]
+WsV    == [none |-> "ok", leading |-> "ok", trailing |-> "ok", inner |-> "ok", newline |-> "ok", tabcr |-> "ok",
+           longleading |-> "ok", longinner |-> "ok"]      \* hundreds of bytes of insignificant whitespace
 NFilV  == [one |-> "ok", two |-> "ok", zero |-> "open"]
 
 Types == {"EVENT", "REQ", "CLOSE", "AUTH", "COUNT"}
